@@ -1237,6 +1237,9 @@ htp_status_t htp_tx_state_response_complete_ex(htp_tx_t *tx, int hybrid_mode) {
         // that many inbound transactions have been processed, and that the parser is
         // waiting on a response that we have not seen yet.
         if ((tx->connp->in_status == HTP_STREAM_DATA_OTHER) && (tx->connp->in_tx == tx->connp->out_tx)) {
+#ifdef LIBHTP_VERIF
+            htp_verif_site(HTP_VERIF_SITE_RES_COMPLETE_EARLY_DATA_OTHER, tx->connp, 0, 0);
+#endif
             return HTP_DATA_OTHER;
         }
 
